@@ -1456,6 +1456,129 @@ func (c *c07Ctx) nesting(quick bool) {
 
 // ---------------------------------------------------------------------------
 
+// ---------------------------------------------------------------------------
+// TIME: the scan of the leak-then-rewind shapes grows linearly with the input (F34).
+//
+// Each shape is generated in two sizes, n and 4n (input sizes in the ratio 1:4).  With t(n) the
+// minimum of three scans of the small input, one of three scans of the large input has to finish
+// within 8·t(n) + 50 ms.  A scan that goes back to saved positions left by an earlier parser and
+// reads the lines behind them again, once per position, takes 16 times as long or more (66de3a0:
+// 1.6 s against 42 s for 7 KB and 28 KB) and is reported with both times.  The comparison is
+// skipped (and counted as skipped) when t(n) is below 1 ms: nothing to compare.
+
+type timeShape struct {
+	name string
+	n    int // size parameter of the small input; the large one is generated with 4n
+	gen  func(n int) []byte
+}
+
+var c07TimeShapes = []timeShape{
+	// n leaked frames, n skipped lines, a SOURCE field without ORGANISM (the shape of F34)
+	{"join-leak+skipped+SOURCE-without-ORGANISM", 1000, func(n int) []byte {
+		return []byte(leakHead("join(", n, n) + "SOURCE      x\n//\n")
+	}},
+	{"order-leak+skipped+SOURCE-without-ORGANISM", 1000, func(n int) []byte {
+		return []byte(leakHead("order(", n, n) + "SOURCE      x\n//\n")
+	}},
+	// ... n multi-line DEFINITION fields without period (each joined in place and retried)
+	{"join-leak+DEFINITION-without-period", 250, func(n int) []byte {
+		return []byte(leakHead("join(", n, 0) + strings.Repeat("DEFINITION  a\n            b\n            c\n", n) + "SOURCE      x\n//\n")
+	}},
+	// ... n REFERENCE fields with an unknown sub-field
+	{"join-leak+REFERENCE-unknown-subfield", 250, func(n int) []byte {
+		return []byte(leakHead("join(", n, 0) + strings.Repeat("REFERENCE   1  (bases 1 to 4)\n  AUTHORS   x\n  BOGUS     y\n", n) + "SOURCE      x\n//\n")
+	}},
+	// ... n DBLINK fields without colon
+	{"join-leak+DBLINK-without-colon", 1000, func(n int) []byte {
+		return []byte(leakHead("join(", n, 0) + strings.Repeat("DBLINK      abc\n", n) + "SOURCE      x\n//\n")
+	}},
+	// n feature tables, each of which leaks one frame per nesting level, no SOURCE at all
+	{"repeated-leaking-tables", 250, func(n int) []byte {
+		return []byte(leakLocus + strings.Repeat("FEATURES\na 1\na join(join(join(1^3\nx\n", n) + "//\n")
+	}},
+}
+
+// c07ScanTime: the shortest of up to `runs` scans of data; a scan that is still running after
+// `limit` is abandoned (its goroutine runs to its end in the background) and does not count.
+// With stopWithin > 0 the first scan that finishes within it ends the measurement.
+func c07ScanTime(data []byte, runs int, limit, stopWithin time.Duration) (best time.Duration, finished bool, verdict string) {
+	for i := 0; i < runs; i++ {
+		done := make(chan string, 1)
+		t0 := time.Now()
+		go func() {
+			defer func() {
+				if rec := recover(); rec != nil {
+					done <- "PANIC"
+				}
+			}()
+			sc := seqio.NewAutoScanner(bytes.NewReader(data))
+			for sc.Scan() {
+			}
+			if sc.Err() != nil {
+				done <- "ERR"
+			} else {
+				done <- "OK"
+			}
+		}()
+		select {
+		case v := <-done:
+			d := time.Since(t0)
+			verdict = v
+			if !finished || d < best {
+				best = d
+			}
+			finished = true
+			if stopWithin > 0 && d <= stopWithin {
+				return
+			}
+		case <-time.After(limit):
+			return
+		}
+	}
+	return
+}
+
+func (c *c07Ctx) timeOracle() {
+	r := c.r
+	for _, sh := range c07TimeShapes {
+		small, big := sh.gen(sh.n), sh.gen(4*sh.n)
+		key := "time|" + sh.name
+		oracle := "scan time grows linearly with the input (" + sh.name + ")"
+		crumb("scan.auto " + encBytes(small))
+		t1, ok, v1 := c07ScanTime(small, 3, 20*time.Second, 0)
+		if !ok {
+			r.eval(key, true)
+			r.fail(Failure{Oracle: oracle, Op: "scan.auto " + encBytes(small),
+				Got: fmt.Sprintf("the scan of %d bytes did not finish within 20 s", len(small)), Want: "a scan that ends"})
+			r.count("time/" + sh.name + "/HANG")
+			continue
+		}
+		if t1 < time.Millisecond {
+			r.count("time/" + sh.name + "/skipped (below 1 ms)")
+			r.notes = append(r.notes, fmt.Sprintf("time oracle %s: %d bytes in %s: below 1 ms, not compared", sh.name, len(small), t1))
+			continue
+		}
+		limit := 8*t1 + 50*time.Millisecond
+		crumb("scan.auto " + encBytes(big))
+		t4, ok4, v4 := c07ScanTime(big, 3, limit+limit/2+time.Second, limit)
+		r.eval(key, true)
+		if !ok4 || t4 > limit {
+			got := fmt.Sprintf("%d bytes: %s (%s); %d bytes: ", len(small), t1, v1, len(big))
+			if ok4 {
+				got += fmt.Sprintf("%s (%s)", t4, v4)
+			} else {
+				got += fmt.Sprintf("not finished after %s", limit+limit/2+time.Second)
+			}
+			r.fail(Failure{Oracle: oracle, Op: "scan.auto " + encBytes(big), Got: got,
+				Want: fmt.Sprintf("at most 8 x %s + 50 ms = %s for four times the input", t1, limit)})
+			r.count("time/" + sh.name + "/superlinear")
+			continue
+		}
+		r.count("time/" + sh.name + "/linear")
+		r.notes = append(r.notes, fmt.Sprintf("time oracle %s: %d bytes in %s, %d bytes in %s (limit %s)", sh.name, len(small), t1, len(big), t4, limit))
+	}
+}
+
 func propC07(r *Run) {
 	quick := r.tier != "thorough"
 	c := &c07Ctx{r: r, seen: map[string]struct{}{}}
@@ -1491,6 +1614,7 @@ func propC07(r *Run) {
 	for _, t := range leakTexts() {
 		c.scanCase("leak-then-rewind", []byte(t), false)
 	}
+	c.timeOracle()
 	for _, cf := range corpus {
 		c.mutateFile(cf, quick)
 	}
